@@ -107,8 +107,8 @@ def run(ctx):
     q = ctx.quick
     tree_names = wiring(ctx)
     tr, executed, nruns = runlib.run_templates(
-        ctx, ["C16"], seeds=[ctx.seed, ctx.seed + 1, ctx.seed + 2] if q else list(range(ctx.seed, ctx.seed + 20)),
-        iters=[0, 1, 5, 40] if q else [0, 1, 5, 40, 150])
+        ctx, ["C16"], seeds=[ctx.seed, ctx.seed + 1, ctx.seed + 2] if q else list(range(ctx.seed, ctx.seed + 4)),
+        iters=[0, 1, 5, 40] if q else [0, 1, 5, 40, 120])
     never = sorted(tree_names - executed)
     if never:
         raise vlib.ToolError("vacuous: components of the shipped templates that no run executed: %s" % never)
